@@ -40,7 +40,9 @@ impl Dependencies for Declaration {
             Self::ReturnStatement(return_statement) => return_statement.supplies(),
             Self::IfStatement(if_statement) => if_statement.supplies(),
             Self::WhileLoop(while_loop) => while_loop.supplies(),
-            Self::NumberLoop(number_loop) => number_loop.supplies(),
+            // a loop's counter only exists inside the loop (`NumberLoop::net_dependencies` accounts for it):
+            // it is deleted when the loop ends, unless it is a variable that an earlier declaration supplied.
+            Self::NumberLoop(_) => vec![],
             Self::Assertion(assertion) => assertion.supplies(),
             Self::Class(class) => class.supplies(),
             Self::Value(value) => value.supplies(),
